@@ -41,6 +41,9 @@ CFG = {
         "Swat4.C09.facts_tx_provenance",
         "Swat4.C09.facts_lock_key",
         "Swat4.C09.facts_lock_setnx",
+        "Swat4.C09.facts_record_reads_fenced",
+        "Swat4.C09.facts_fence_check",
+        "Swat4.C09.facts_write_keys",
     ],
     "shards": (4, 16),
     "nontrivial": _c09_nontrivial,
